@@ -131,8 +131,8 @@ Example C07_roundtrip_hypotheses_satisfiable :
 Proof. exact roundtrip_hypotheses_satisfiable. Qed.
 
 (* The same for a larger expression language [ex]: identifiers, integer / floating / character constants, binary
-   operators, the prefix operators - + ! ~ * &, subscripts, member accesses (. and ->), function calls with any number of
-   arguments, the conditional operator, all (compound) assignments and comma expressions, nested in any way and to any
+   operators, the prefix operators - + ! ~ * & ++ --, postfix ++ --, sizeof(expression), subscripts, member accesses
+   (. and ->), function calls with any number of arguments, the conditional operator, all (compound) assignments and comma expressions, nested in any way and to any
    depth.  [xt rp e] is the token sequence of the generated text, with operands parenthesised exactly as visit_BinaryOp /
    visit_UnaryOp / visit_ArrayRef / visit_StructRef / visit_FuncCall / visit_TernaryOp / visit_Assignment /
    visit_ExprList / _visit_expr do.
